@@ -1,6 +1,8 @@
 import BctVerif.Lemmas.Walks
 import BctVerif.Lemmas.WalksCount
 import BctVerif.Lemmas.WalksTail
+import BctVerif.Lemmas.WalksPost
+import BctVerif.Lemmas.WalksExp
 /-!
 # C18 — random-walk and spectral measures satisfy their defining equations
 
@@ -18,6 +20,10 @@ over an arbitrary (ordered) field.
 * `subgraph_spectral`    – `Σ_k V i k² · Σ_{m<T} λ_k^m/m! = expDiag A T i` for every *orthonormal* eigenbasis
 * `subgraph_series_tail` – all later partial sums of the series stay within the model's explicit bound `expTail`
 * `subgraph_needs_orthonormal` – the identity fails for a non-orthonormal eigenbasis of C₄ (defect D15)
+* `eigenvector_spec`, `eigenvector_post_spec` – **eigenvector_centrality_und**: code after `linalg.eig` modelled literally, the
+  decomposition an oracle with the contract `EigOracle`: result ≥ 0, unit norm, `A v = λ_max v` for every admissible oracle output
+* `subgraph_spec`, `subgraph_model_exp`, `subgraph_model_spec`, `subgraph_post_spec` – **subgraph_centrality**: code after
+  `linalg.eigh` (`EighOracle`) equals the diagonal of Mathlib's matrix exponential; the executable `expDiag` is within its printed bound of it
 * `eig_abs_of_max`       – `|v|` of a λ_max eigenvector of a symmetric non-negative matrix is a λ_max eigenvector
 * `eigCert_sound`, `eigCert_bracket` – what the exact certificate of an oracle vector establishes
 -/
@@ -425,6 +431,99 @@ theorem eigCert_bracket {K : Type} [Field K] [LinearOrder K] [IsStrictOrderedRin
     have := hbd' i
     calc lo * (v[i] * v[i]) = v[i] * (lo * v[i]) := by ring
       _ ≤ v[i] * ∑ k : Fin n, (A.get i k : ℚ) * v[k] := mul_le_mul_of_nonneg_left this.2.1 this.1.le
+
+
+/-! ## the two spectral routines: post-processing as coded, eigen-solver as an oracle with an explicit contract -/
+
+/-- **eigenvector_centrality_und.**  `vals, vecs = linalg.eig(A)` is an oracle constrained by `EigOracle` (every column a
+unit eigenvector for its entry of `vals`, and `vals` lists every eigenvalue of `A`); `i = argmax(vals)`; the routine returns
+`eigCentrality vecs i = |vecs[:, i]|`.  For every symmetric matrix with non-negative entries and **every** oracle output
+meeting the contract, the returned vector is non-negative, has unit norm, and is an eigenvector of `A` for `vals i`, which
+no eigenvalue of `A` exceeds (`λ_max`).  Uses the spectral theorem for the Rayleigh bound; no connectivity or simplicity
+assumption (repeated `λ_max`, disjoint copies included). -/
+theorem eigenvector_spec (A : Matrix (Fin n) (Fin n) ℝ) (hsym : ∀ i j, A i j = A j i) (hpos : ∀ i j, 0 ≤ A i j)
+    (vals : Fin n → ℝ) (vecs : Matrix (Fin n) (Fin n) ℝ) (ho : EigOracle A vals vecs)
+    (i : Fin n) (hi : IsArgmax vals i) :
+    (∀ r, 0 ≤ eigCentrality vecs i r) ∧
+    (∑ r, eigCentrality vecs i r * eigCentrality vecs i r = 1) ∧
+    (A *ᵥ eigCentrality vecs i = vals i • eigCentrality vecs i) ∧
+    (∀ (μ : ℝ) (x : Fin n → ℝ), x ≠ 0 → A *ᵥ x = μ • x → μ ≤ vals i) :=
+  WalksAlg.eigenvector_spec A hsym hpos vals vecs ho i hi
+
+/-- the executable post-processing run by the driver (`eigpost`) is that abstract post-processing: it returns an index of a
+maximal entry of `vals` and the entrywise absolute value of that column -/
+theorem eigenvector_post_spec (vals : QVec n) (vecs : QMat n) (i : Fin n) (v : QVec n)
+    (h : eigPost vals vecs = .ok (i, v)) :
+    IsArgmax (fun k : Fin n => vals[k]) i ∧ ∀ r : Fin n, v[r] = eigCentrality (toMat vecs) i r :=
+  eigPost_spec vals vecs i v h
+
+/-- **subgraph_centrality.**  `vals, vecs = linalg.eigh(A)` is an oracle constrained by `EighOracle` (orthonormal columns
+diagonalising `A`); the routine returns `subgraphCentrality vals vecs = dot(vecs*vecs, exp(vals))`.  For every oracle output
+meeting the contract this is the diagonal of the matrix exponential (Mathlib's `NormedSpace.exp` on real matrices). -/
+theorem subgraph_spec (A : Matrix (Fin n) (Fin n) ℝ) (vals : Fin n → ℝ) (vecs : Matrix (Fin n) (Fin n) ℝ)
+    (ho : EighOracle A vals vecs) (i : Fin n) :
+    subgraphCentrality vals vecs i = (NormedSpace.exp A) i i :=
+  WalksAlg.subgraph_spec A vals vecs ho i
+
+/-- the executable model value `expDiag A T` (what the correspondence compares `subgraph_centrality` with) lies within the
+printed bound `expTail ‖A‖∞ T` of the diagonal of the true matrix exponential -/
+theorem subgraph_model_exp (A : AMat Int n) (T : ℕ) (b : ℚ) (hb : expTail (infNorm A) T = .ok b) (i : Fin n) :
+    |(NormedSpace.exp (toMatR A)) i i - (((expDiag A T)[i] : ℚ) : ℝ)| ≤ (b : ℝ) :=
+  exp_diag_tail A T b hb i
+
+/-- both together: for an integer-weighted symmetric matrix and every `eigh` oracle output meeting the contract, the value
+the routine computes differs from the executable model's `expDiag A T i` by at most the printed bound -/
+theorem subgraph_model_spec (A : AMat Int n) (vals : Fin n → ℝ) (vecs : Matrix (Fin n) (Fin n) ℝ)
+    (ho : EighOracle (toMatR A) vals vecs) (T : ℕ) (b : ℚ) (hb : expTail (infNorm A) T = .ok b) (i : Fin n) :
+    |subgraphCentrality vals vecs i - (((expDiag A T)[i] : ℚ) : ℝ)| ≤ (b : ℝ) := by
+  rw [subgraph_spec (toMatR A) vals vecs ho i]
+  exact exp_diag_tail A T b hb i
+
+/-- the executable `subpost` is `dot(vecs*vecs, ev)` -/
+theorem subgraph_post_spec (vecs : QMat n) (ev : QVec n) (i : Fin n) :
+    (subPost vecs ev)[i] = ∑ k : Fin n, vecs.get i k * vecs.get i k * ev[k] :=
+  subPost_spec vecs ev i
+
+/-! non-vacuity of the two oracle contracts: `A = [[9,12],[12,16]]` (eigenvalues 25, 0) with rational unit eigenvectors;
+the `eig` output below has a negative first column, so `abs` matters -/
+def a34 : Matrix (Fin 2) (Fin 2) ℝ := !![9, 12; 12, 16]
+def vals34 : Fin 2 → ℝ := ![25, 0]
+noncomputable def vecs34 : Matrix (Fin 2) (Fin 2) ℝ := !![-3/5, 4/5; -4/5, -3/5]
+
+example : EighOracle a34 vals34 vecs34 := by
+  constructor
+  · ext i j; fin_cases i <;> fin_cases j <;> norm_num [a34, vals34, vecs34, Matrix.mul_apply, Fin.sum_univ_two, Matrix.diagonal]
+  · ext i j; fin_cases i <;> fin_cases j <;> norm_num [vecs34, Matrix.mul_apply, Fin.sum_univ_two, Matrix.one_apply]
+
+example : EigOracle a34 vals34 vecs34 ∧ IsArgmax vals34 0 ∧ eigCentrality vecs34 0 = ![3/5, 4/5] := by
+  refine ⟨⟨fun k => ?_, fun k => ?_, fun μ x hx hAx => ?_⟩, fun k => ?_, ?_⟩
+  · ext r; fin_cases k <;> fin_cases r <;> norm_num [a34, vals34, vecs34, Matrix.mulVec, dotProduct, Fin.sum_univ_two]
+  · fin_cases k <;> norm_num [vecs34, Fin.sum_univ_two]
+  · have h0 := congrFun hAx 0
+    have h1 := congrFun hAx 1
+    simp only [a34, Matrix.mulVec, dotProduct, Fin.sum_univ_two, Matrix.of_apply, Matrix.cons_val', Matrix.cons_val_zero,
+      Matrix.cons_val_one, Pi.smul_apply, smul_eq_mul] at h0 h1
+    by_cases hμ : μ = 25
+    · exact ⟨0, by simp [vals34, hμ]⟩
+    · refine ⟨1, ?_⟩
+      have hs : (3 * x 0 + 4 * x 1) * (μ - 25) = 0 := by linear_combination -3 * h0 - 4 * h1
+      have hs0 : 3 * x 0 + 4 * x 1 = 0 := by
+        rcases mul_eq_zero.mp hs with h | h
+        · exact h
+        · exact absurd (sub_eq_zero.mp h) hμ
+      have e0 : μ * x 0 = 0 := by linear_combination -h0 + 3 * hs0
+      have e1 : μ * x 1 = 0 := by linear_combination -h1 + 4 * hs0
+      by_contra hne
+      have hμ0 : μ ≠ 0 := fun h => hne (by simp [vals34, h])
+      apply hx
+      ext r; fin_cases r
+      · simpa using (mul_eq_zero.mp e0).resolve_left hμ0
+      · simpa using (mul_eq_zero.mp e1).resolve_left hμ0
+  · fin_cases k <;> norm_num [vals34]
+  · ext r; fin_cases r <;> norm_num [eigCentrality, vecs34, abs_of_neg, abs_of_pos]
+
+example : (match eigPost (Vector.ofFn ![25, 0]) (AMat.ofFn fun i j => (![![-3/5, 4/5], ![-4/5, -3/5]] : Fin 2 → Fin 2 → ℚ) i j) with
+    | .ok (i, v) => i == 0 && v == Vector.ofFn ![3/5, 4/5] | _ => false) = true := by decide +kernel
 
 def k2 : AMat Int 2 := AMat.ofFn fun i j => if i = j then 0 else 1
 example : (match eigCert k2 (Vector.ofFn fun _ => (1 / 2 : ℚ)) with
